@@ -267,7 +267,11 @@ def rule_e(ctx):
             t, _neg = A.strip_not(n.test)
             if isinstance(t, ast.Compare) and len(t.ops) == 1 and isinstance(t.ops[0], (ast.Eq, ast.NotEq)) \
                     and all(isinstance(x, ast.Call) and A.dotted(x.func) == 'len' for x in [t.left, t.comparators[0]]):
-                ok = True
+                equal_when_true = isinstance(t.ops[0], ast.Eq) != _neg
+                keyed = n.body if equal_when_true else n.orelse
+                unkeyed = n.orelse if equal_when_true else n.body
+                ok = any(isinstance(x, ast.Call) and A.dotted(x.func) == 'from_dict' for s in keyed for x in ast.walk(s)) and \
+                    any(isinstance(x, ast.Call) and A.dotted(x.func) == 'from_list' for s in unkeyed for x in ast.walk(s))
     rep.ob('E', 'core.from_dataset::keyed-only-if-keys-unique', ok, fd, '')
 
 
